@@ -94,6 +94,10 @@ FUNCS = {'collect': collect}
 # ---------------------------------------------------------------------------
 # reference interpreter
 
+class Unspecified(Exception):
+    """the reference met an input for which the documentation promises nothing: the case asserts nothing"""
+
+
 class RefErr(Exception):
     """the evaluation fails; cls is the exception class glom must raise"""
     def __init__(self, cls, why=''):
@@ -323,6 +327,11 @@ def refauto(r, target, log, env):
                 if op[2] is not None:
                     extra = refauto(op[2], target, log, env)
                     if not isinstance(extra, dict):
+                        if hasattr(extra, '__iter__'):
+                            # star(kwargs=spec) is documented for a spec that evaluates to a MAPPING; an
+                            # iterable that is none (an empty list, a list of pairs, '') is outside that -
+                            # glom feeds it to dict.update(), a call f(**x) would refuse it: not asserted
+                            raise Unspecified('star kwargs: an iterable that is no mapping')
                         raise RefErr(TypeError, 'argument after ** must be a mapping')
                     kwargs.update(extra)
         return FUNCS[r[1]](*args, **kwargs)
@@ -976,6 +985,9 @@ def check(recipe, ctx):
         exp = ('ok', refauto(r, rt, rlog, env0))
     except RefErr as e:
         exp = ('err', e)
+    except Unspecified:
+        ctx.label('unspecified-star-kwargs')
+        return
     for l in sorted(env0['$labels']):
         ctx.label(l)
     gt = tg.build(recipe['target']).obj
